@@ -76,6 +76,15 @@ FLOW = {
         (CT + "merge", ["true"], []),
     ],
 }
+# boolean options: (arm, setter) -> (option, value when the flag is given, value when it is not)
+BOOL_EFFECTS = {
+    ("Oligo", OC + "set_norm"): ("counts", False, True),
+    ("Oligo", OC + "set_header"): ("header", True, False),
+    ("Cgr", OG + "set_norm"): ("counts", False, True),
+    ("Cov", CV + "set_norm"): ("counts", False, True),
+    ("Ctr", CT + "set_acgt_output"): ("acgt", True, False),
+}
+BOOL_DEFAULT_FIELD = {"set_norm": "norm", "set_header": "header", "set_acgt_output": "acgt"}
 ARGS_OF = {"Oligo": "OligoCommand", "Cgr": "CGRCommand", "Cov": "CoverageCommand", "Min": "MinimiserCommand",
            "Ctr": "CounterCommand"}
 WS = ("composition::", "coverage::", "counter::", "misc::", "ktio::", "kmer::", "kmertools::", "pybindings::")
@@ -250,7 +259,42 @@ def preset_rule(ctx, fv):
 # ---------------------------------------------------------------- F
 
 def refusal_guards(gl):
-    return sorted(gl) == sorted(["!((0 < cmd.w_size) && (cmd.w_size <= cmd.m_size))", "!(31 <= cmd.m_size)"])
+    need = "!((0 < cmd.w_size) && (cmd.w_size <= cmd.m_size))"
+    opt = "!(31 <= cmd.m_size)"      # implied by the clap range when its upper bound is <= 30 (checked in C15.Z)
+    return need in gl and all(g in (need, opt) for g in gl)
+
+
+def ctor_default(ctx, setter):
+    """literal the constructor gives the boolean field a setter writes"""
+    owner = setter.rsplit("::", 1)[0]
+    fv = ctx.view(owner + "::new")
+    if fv is None:
+        return None
+    lit = struct_literal(fv, owner)
+    if lit is None:
+        return None
+    t = struct_fields(fv, lit).get(BOOL_DEFAULT_FIELD.get(setter.split("::")[-1], ""))
+    return t[1] if t is not None and t[0] == "lit" and isinstance(t[1], bool) else None
+
+
+def bool_effect(ctx, setter, opt, args, guards):
+    """(value when flag given, value when not) of a boolean setter wiring, or None if not of a known form.
+    `extra` guards other than the flag itself are returned for comparison."""
+    flag = "cmd." + opt
+    if len(args) != 1:
+        return None
+    a = args[0]
+    other = [g for g in guards if g not in (flag, "!" + flag)]
+    cond = [g for g in guards if g in (flag, "!" + flag)]
+    default = ctor_default(ctx, setter)
+    if a in ("true", "false") and len(cond) == 1 and default is not None:
+        v = a == "true"
+        return ((v, default) if cond[0] == flag else (default, v)), other
+    if a == flag and not cond:
+        return (True, False), other
+    if a == "!" + flag and not cond:
+        return (False, True), other
+    return None
 
 
 def flow_rule(ctx, fv):
@@ -300,6 +344,19 @@ def flow_rule(ctx, fv):
                          % (callee, len(cands), arm), line_of(cands[0][3]) if cands else fv.fn["sp"])
                 continue
             _, ga, gg, node = cands[0]
+            be = BOOL_EFFECTS.get((arm, callee))
+            if be is not None:
+                opt, von, voff = be
+                got_e = bool_effect(ctx, callee, opt, ga, gg)
+                exp_other = sorted(g for g in guards if g not in ("cmd." + opt, "!cmd." + opt))
+                ok_e = got_e is not None and got_e[0] == (von, voff) and sorted(got_e[1]) == exp_other
+                ctx.check("C15.F", key, ok_e,
+                          "--%s given -> %s(%s), otherwise %s" % (opt, callee.split("::")[-1], von, voff),
+                          "`%s` is wired as (%s) under %s, i.e. %s; expected: with --%s the value is %s, without it %s "
+                          "(under %s)" % (callee, ", ".join(ga), gg or "no condition",
+                                          ("flag->%s, no flag->%s" % got_e[0]) if got_e else "an unrecognised form",
+                                          opt, von, voff, exp_other or "no other condition"), line_of(node))
+                continue
             ctx.check("C15.F", key, ga == args and gg == sorted(guards),
                       "%s(%s) under %s" % (callee.split("::")[-1], ", ".join(args), guards or "no condition"),
                       "`%s` is wired as (%s) under %s; expected (%s) under %s — an option reaches the wrong "
@@ -383,6 +440,13 @@ def refusal_rule(ctx, fv):
                 found[name] = r
     for name in want:
         r = found.get(name)
+        if r is None and name == "Min:m_too_long":
+            am = ctx.view("<kmertools::args::MinimiserCommand as clap::Args>::augment_args", UNIT)
+            rg = range_of(am, arg_blocks(am).get("m_size") or am.body)[0] if am is not None else None
+            okr = rg is not None and rg[0] != "unreadable" and rg[1] is not None and rg[1] <= 30
+            ctx.check("C15.Z", name, okr, "m >= 31 is already refused by the option's range %s" % (fmt_range(rg) if rg else "?"),
+                      "cli() no longer refuses m >= 31 and the clap range %s admits it" % (fmt_range(rg) if rg else "<none>"), fv.fn["sp"])
+            continue
         if r is None:
             ctx.fail("C15.Z", name, "the refusal `%s` (diagnostic + return before any output) is gone from cli()" % name, fv.fn["sp"])
             continue
